@@ -153,6 +153,7 @@ def main():
             for fn in fns:
                 os.utime(os.path.join(dp, fn), (old_t, old_t))
         AGED[0] = set(r.object_store)
+        YOUNG.clear()       # the fresh copies written before this step are 30 days old now as well
 
     def op_readd_dangling(r):
         # an unreachable object that already exists (possibly packed, possibly old) is written again: its loose copy is fresh
